@@ -4,6 +4,7 @@ package c08
 import (
 	"bytes"
 	"encoding/json"
+	"errors"
 	"fmt"
 	"io"
 	"strings"
@@ -35,9 +36,12 @@ type Case struct {
 	Between  bool   `json:"between,omitempty"`
 	// BetweenFlush: the write between prepare and save is followed by a Sync (memtable flush), as
 	// dragonboat's periodic Sync of an on-disk state machine can land there
-	BetweenFlush bool     `json:"between_flush,omitempty"`
-	J            int      `json:"j,omitempty"`
-	Desc         []string `json:"desc,omitempty"`
+	BetweenFlush bool `json:"between_flush,omitempty"`
+	// WriteErr (stop-save): the interruption is an error of the output writer at its J-th write (the
+	// receiving end went away) instead of the stop signal
+	WriteErr bool     `json:"write_error,omitempty"`
+	J        int      `json:"j,omitempty"`
+	Desc     []string `json:"desc,omitempty"`
 }
 
 type viol struct{ sig, detail string }
@@ -123,13 +127,18 @@ var extraWrite = func(i uint64) sm.Entry {
 
 // countingWriter calls hook after the j-th Write call.
 type countingWriter struct {
-	w    io.Writer
-	n    int
-	at   int
-	hook func()
+	w        io.Writer
+	n        int
+	at       int
+	hook     func()
+	failFrom int // > 0: the failFrom-th write and all later ones fail
 }
 
 func (c *countingWriter) Write(p []byte) (int, error) {
+	if c.failFrom > 0 && c.n+1 >= c.failFrom {
+		c.n++
+		return 0, errors.New("verif: the receiving end of the snapshot stream went away")
+	}
 	n, err := c.w.Write(p)
 	c.n++
 	if c.n == c.at && c.hook != nil {
@@ -322,8 +331,12 @@ func RunStopSave(c Case) (vs []viol, outcome string, writes int) {
 	stopc := make(chan struct{})
 	var buf bytes.Buffer
 	cw := &countingWriter{w: &buf, at: c.J, hook: func() { close(stopc) }}
-	serr := saver.SaveSnapshot(nil, cw, stopc)
 	tag := "stop-during-save(" + c.Saver + ")"
+	if c.WriteErr {
+		cw = &countingWriter{w: &buf, at: c.J, failFrom: c.J}
+		tag = "writer-error-during-save(" + c.Saver + ")"
+	}
+	serr := saver.SaveSnapshot(nil, cw, stopc)
 	if serr != nil && strings.HasPrefix(serr.Error(), "PANIC") {
 		return []viol{{tag + "/panic", serr.Error()}}, "", cw.n
 	}
@@ -331,7 +344,13 @@ func RunStopSave(c Case) (vs []viol, outcome string, writes int) {
 	if err != nil || got != want {
 		vs = append(vs, viol{tag + "/saver-changed", fmt.Sprintf("got %s err %v want %s", got, err, want)})
 	}
-	// a second, complete snapshot still works and is faithful
+	// a second, complete snapshot - of a state that has moved on - still works and is faithful
+	// (whatever the interrupted save left behind in shared or pooled state must not leak into it)
+	if _, err := saver.Update([]sm.Entry{extraWrite(want.applied + 10)}); err != nil {
+		vs = append(vs, viol{tag + "/saver-unusable", err.Error()})
+		return vs, "", cw.n
+	}
+	want, _ = capture(saver)
 	var buf2 bytes.Buffer
 	if err := saver.SaveSnapshot(nil, &buf2, nil); err != nil {
 		vs = append(vs, viol{tag + "/second-save-fails", err.Error()})
@@ -490,7 +509,7 @@ func Run(r *evid.Run) {
 	if r.Thorough() {
 		depth = 3
 	}
-	r.Rule(fmt.Sprintf("(1) fidelity: every history of length 0..%d over the 16-entry C03 alphabet x saver format {snapshot,checkpoint} x receiver format x receiver prior state {fresh, other content at a higher index, the same after having saved a snapshot of its own in its own format} x {no write, a write between prepare and save, a write followed by a memtable flush (Sync) between prepare and save}; plus a write applied from inside save after its j-th output write, every j; receiver must equal the saver at prepare time (content, applied, leader index, hash), stay usable and reopen to the same. (2) stop signal at the j-th input read of recover / j-th output write of save, every j: receiver entirely old or entirely new, usable, same after reopen; saver unchanged. (3) crash at every FS operation boundary of histories containing snapshot installs (C04 machinery). (4) reads overlapping an install at API granularity: unary read, lazy stream obtained and pulled message by message, install placed before every reader step, both formats. (5) the same overlap at statement granularity under the cooperative scheduler: one reader thread (unary / streamed) and one installer thread (both formats), a scheduling point before every statement of the read path and of recover, all interleavings up to the preemption bound. Non-trivial: all cases; distinct = distinct (case, observed state) renderings", depth))
+	r.Rule(fmt.Sprintf("(1) fidelity: every history of length 0..%d over the 16-entry C03 alphabet x saver format {snapshot,checkpoint} x receiver format x receiver prior state {fresh, other content at a higher index, the same after having saved a snapshot of its own in its own format} x {no write, a write between prepare and save, a write followed by a memtable flush (Sync) between prepare and save}; plus a write applied from inside save after its j-th output write, every j; receiver must equal the saver at prepare time (content, applied, leader index, hash), stay usable and reopen to the same. (2) stop signal at the j-th input read of recover / j-th output write of save (and, for save, an error of the output writer at its j-th write), every j: receiver entirely old or entirely new, usable, same after reopen; saver unchanged. (3) crash at every FS operation boundary of histories containing snapshot installs (C04 machinery). (4) reads overlapping an install at API granularity: unary read, lazy stream obtained and pulled message by message, install placed before every reader step, both formats. (5) the same overlap at statement granularity under the cooperative scheduler: one reader thread (unary / streamed) and one installer thread (both formats), a scheduling point before every statement of the read path and of recover, all interleavings up to the preemption bound. Non-trivial: all cases; distinct = distinct (case, observed state) renderings", depth))
 	total := par.SeqCount(len(alpha), depth)
 	types := []string{"s", "c"}
 	// (1)
@@ -549,7 +568,7 @@ func Run(r *evid.Run) {
 			for _, prior := range []string{"fresh", "other"} {
 				scases = append(scases, Case{Kind: "stop-recover", Log: log, Saver: sv, Receiver: "s", Prior: prior})
 			}
-			scases = append(scases, Case{Kind: "stop-save", Log: log, Saver: sv})
+			scases = append(scases, Case{Kind: "stop-save", Log: log, Saver: sv}, Case{Kind: "stop-save", Log: log, Saver: sv, WriteErr: true})
 		}
 	}
 	par.For(int64(len(scases)), r.Expired, func(i int64) {
